@@ -438,7 +438,8 @@ func runBehaviour(idx int, beh behaviour, opt options) ([]*caseRec, *behRec) {
 				b.mu.Unlock()
 				b.update(c, func(o *connObs) { o.handled = true })
 			}()
-			var m service.TCPConnMetrics = &recMetrics{b: b, c: c}
+			cc, _ := conn.(*countedConn)
+			var m service.TCPConnMetrics = &recMetrics{b: b, c: c, conn: cc}
 			if opt.openHook != nil && c >= 1 && c <= len(beh.Sc) { // not for the priming connections
 				m = &teeMetrics{a: m, b: opt.openHook(conn, c)}
 			}
